@@ -884,6 +884,11 @@ def _r8_subpyramid(run, ev):
     else:
         eq = False
     if eq is not True and len(members) != 1:
+        # closed form of "pos is the apex or one of its ancestors": pos.n >= 0 and pos.x == apex.x // 2**(apex.n - pos.n) (same for y)
+        if _is_closed_form_ancestor_test(project, outer, f, accepted, posp, below):
+            run.holds("C01.R8", f, None, "position filter accepts positions below the apex level and, in closed form, the apex and its ancestors "
+                      "(pos.x == apex.x >> (apex.n - pos.n), pos.y likewise)")
+            return
         # not the "ancestor set" form: look for a position on which the closure's value differs from the specification
         # (levels 0..3; a counterexample is definite, agreement on the grid is not a proof)
         cex = _position_filter_counterexample(project, outer, f, accepted, posp)
@@ -956,3 +961,48 @@ def _position_filter_counterexample(project, outer, inner, accepted, posp):
                             if pn >= 3 and (px > 2 or py > 2):
                                 break
     return None
+
+
+
+def _is_closed_form_ancestor_test(project, outer, inner, accepted, posp, below):
+    oev = sym.make_evaluator(project, PYR, [PYR + ".pos_parent"])
+    ro = oev.run(outer.node)
+    nested = ro.nested.get(inner.name)
+    captured = dict(nested[1]) if nested else {}
+    apexp = ("sym", outer.params()[0])
+
+    def subst(t):
+        if isinstance(t, tuple):
+            if t and t[0] == "sym" and t[1] in captured and t != apexp and t != posp and captured[t[1]] != t:
+                return subst(captured[t[1]])
+            return tuple(subst(x) if isinstance(x, tuple) else x for x in t)
+        return t
+    def renorm(t):
+        # polynomial arithmetic redone after the substitution
+        if not isinstance(t, tuple) or not t:
+            return t
+        if t[0] == "poly":
+            acc_ = num(0)
+            for mono, c in t[1]:
+                term = num(c)
+                for a, p_ in mono:
+                    a2 = renorm(a)
+                    term = sym.mul(term, sym.powi(a2, p_)) if p_ >= 0 else sym.div(term, sym.powi(a2, -p_))
+                acc_ = sym.add(acc_, term)
+            return acc_
+        if t[0] == "op" and t[1].startswith("cmp:") and len(t[2]) == 2:
+            return sym.cmp(t[1][4:], renorm(t[2][0]), renorm(t[2][1]))
+        if isinstance(t[0], str):
+            return (t[0],) + tuple(renorm(x) if isinstance(x, tuple) else x for x in t[1:])
+        return tuple(renorm(x) if isinstance(x, tuple) else x for x in t)
+    acc = renorm(subst(accepted))
+    below = renorm(subst(below))
+    d = sym.sub(("attr", apexp, "n"), ("attr", posp, "n"))
+    two_d = ("op", "pow", (num(2), d))
+    forms = []
+    for shift in (lambda v: ("op", "floordiv", (v, two_d)), lambda v: ("op", "rshift", (v, d))):
+        eqx = sym.cmp("Eq", ("attr", posp, "x"), shift(("attr", apexp, "x")))
+        eqy = sym.cmp("Eq", ("attr", posp, "y"), shift(("attr", apexp, "y")))
+        for nonneg in (sym.cmp("LtE", num(0), ("attr", posp, "n")), sym.TRUE):
+            forms.append(("op", "or", (below, ("op", "and", (nonneg, eqx, eqy)))))
+    return any(boolalg.equiv(acc, w) is True for w in forms)
